@@ -39,6 +39,10 @@ T = {
          'Differential twin runs original vs clone with identical continuations (incl. next_id and merge), plus an independence check: mutating one copy leaves the complete observation of the other unchanged and the other still drains exactly as the reference model says.',
          'trusted: the interpreter and, for the independence drain, the reference model',
          'differential twin stateful property testing (original vs clone), metamorphic independence check'),
+ 'C14': ('scriptgen', 'exploration',
+         'Differential twin: deploy_to(text) vs the direct API calls for generated programs under generated legal formatting; single-fault corruptions are classified by an independent strict parser (well-formed / malformed at command k / unspecified) and judged accordingly (Err without panic, prefix applied).',
+         'trusted: the strict parser of the documented grammar (harness/src/props/script.rs); unspecified syntax is skipped and counted',
+         'grammar-based generation + differential twin (script vs calls) + fault injection classified by an independent parser'),
  'C15': ('hexenum', 'exploration',
          'Differential against Rust slice semantics: for generated contents, every length 0..=12 in three representations and the complete index/range space up to 14 plus usize::MAX ends; equal result or both panic. The index space is exhaustive per content, the contents are sampled.',
          'trusted: Rust slice indexing as the oracle; bounds: lengths <=12, indices <=14 and the two largest usize',
@@ -80,7 +84,7 @@ na = [{'property_id': p['id'], 'reason': 'check under construction in this sessi
 engines = {}
 for i in claimed:
     engines.setdefault(T[i][0], []).append(i)
-paths = {'twin': 'harness/src/props/twin.rs', 'prefixes': 'harness/src/props/prefixes.rs', 'multi-config': 'harness/src/props/multi.rs', 'gcmodel': 'harness/src/engine.rs', 'hexenum': 'harness/src/props/hexlab.rs', 'concatenum': 'harness/src/props/hexlab.rs', 'labels': 'harness/src/props/hexlab.rs'}
+paths = {'scriptgen': 'harness/src/props/script.rs', 'twin': 'harness/src/props/twin.rs', 'prefixes': 'harness/src/props/prefixes.rs', 'multi-config': 'harness/src/props/multi.rs', 'gcmodel': 'harness/src/engine.rs', 'hexenum': 'harness/src/props/hexlab.rs', 'concatenum': 'harness/src/props/hexlab.rs', 'labels': 'harness/src/props/hexlab.rs'}
 m = {
     'version': 1,
     'setup_cmd': './setup.sh',
